@@ -39,7 +39,18 @@ def run(ctx):
                "" if ok else f"body is {body}: the cache and the persistent mapping diverge", nontrivial=True, where=where(f, f.node))
     f = repo.func(UT, f"{CL}.popitem")
     body = [A.norm(s) for s in A.body(f.node)]
-    ok = body == ["key, value = self._cache.popitem()", "del self._func[key]", "return (key, value)"] or body == ["(key, value) = self._cache.popitem()", "del self._func[key]", "return (key, value)"]
+    # the pair popped from the cache: its key is deleted from the persistent mapping, and the pair is returned - by unpacking or indexing
+    stm_ = A.body(f.node)
+    ok = False
+    if len(stm_) == 3 and isinstance(stm_[0], ast.Assign) and A.norm(stm_[0].value) == "self._cache.popitem()" and isinstance(stm_[2], ast.Return):
+        tg_ = stm_[0].targets[0]
+        if isinstance(tg_, ast.Tuple) and len(tg_.elts) == 2:
+            k_, v_ = A.norm(tg_.elts[0]), A.norm(tg_.elts[1])
+        elif isinstance(tg_, ast.Name):
+            k_, v_ = f"{tg_.id}[0]", f"{tg_.id}[1]"
+        else:
+            k_ = v_ = None
+        ok = k_ is not None and A.norm(stm_[1]) == f"del self._func[{k_}]" and A.norm(stm_[2].value) in (f"({k_}, {v_})", tg_.id if isinstance(tg_, ast.Name) else "")
     ctx.ob("C43.D1-write-through", cname(f, None, "popitem removes the same key from the persistent mapping"), ok, "" if ok else f"body is {body}", nontrivial=True, where=where(f, f.node))
     # closed world: who mutates self._cache / self._func
     allowed_cache = {f"{CL}.__init__", f"{CL}.__setitem__", f"{CL}.__delitem__", f"{CL}.popitem", f"{CL}.reload"}
@@ -65,14 +76,30 @@ def run(ctx):
     ctx.ob("C43.D1-write-through", cname(it, None, "iteration / len over the cache"), ok, "" if ok else "iteration source changed", where=where(it, it.node))
     fl = repo.func(UT, f"{CL}.flush")
     loops = [s for s in fl.node.body if isinstance(s, ast.For)]
-    ok = len(loops) == 1 and A.norm(loops[0].iter) == "self.items()" and [A.norm(x) for x in A.body(loops[0].body)] == ["self._func[k] = v"]
+    ok = False
+    if len(loops) == 1 and len(A.body(fl.node)) == 1:
+        lp_ = loops[0]
+        b_ = [A.norm(x) for x in A.body(lp_.body)]
+        if A.norm(lp_.iter) in ("self.items()", "self._cache.items()", "list(self.items())") and isinstance(lp_.target, ast.Tuple) and len(lp_.target.elts) == 2:
+            ok = b_ == [f"self._func[{A.norm(lp_.target.elts[0])}] = {A.norm(lp_.target.elts[1])}"]
+        elif A.norm(lp_.iter) in ("self", "self._cache", "list(self)", "self.keys()") and isinstance(lp_.target, ast.Name):
+            k_ = lp_.target.id
+            ok = b_ in ([f"self._func[{k_}] = self[{k_}]"], [f"self._func[{k_}] = self._cache[{k_}]"])
     ctx.ob("C43.D1-write-through", cname(fl, None, "flush rewrites every item (picks up in-place mutation of values)"), ok, "" if ok else "flush skips items", where=where(fl, fl.node))
     rl = repo.func(UT, f"{CL}.reload")
-    ok = [A.norm(s) for s in A.body(rl.node)] == ["self._cache = dict(self._func.items())"]
+    ok = [A.norm(s) for s in A.body(rl.node)] in (["self._cache = dict(self._func.items())"], ["self._cache = dict(self._func)"],
+                                                  ["self._cache = {key: value for key, value in self._func.items()}"], ["self._cache = {k: v for k, v in self._func.items()}"])
     ctx.ob("C43.D1-write-through", cname(rl, None, "reload = everything in the persistent mapping"), ok, "" if ok else "reload changed", where=where(rl, rl.node))
     init = repo.func(UT, f"{CL}.__init__")
     t = A.norm(init.node)
-    ok = "self._file = zict.File(directory)" in t and "self._func = zict.Func(self._dump, self._load, self._file)" in t and "self.reload()" in t
+    gi_ = q.cfg(init, q.quiet_policy(repo))
+    fstore = [s_ for s_ in A.walk_stmts(init.node.body) if isinstance(s_, ast.Assign) and A.norm(s_.targets[0]) == "self._func"]
+    ok = "self.reload()" in t and len(fstore) == 1 and bool(gi_.nodes_of(fstore[0]))
+    if ok:
+        v_ = q.expand_at(gi_, gi_.nodes_of(fstore[0])[0], fstore[0].value)
+        file_stores = [A.norm(q.expand_at(gi_, gi_.nodes_of(s_)[0], s_.value)) for s_ in A.walk_stmts(init.node.body)
+                       if isinstance(s_, ast.Assign) and A.norm(s_.targets[0]) == "self._file" and gi_.nodes_of(s_)]
+        ok = A.norm(v_) in ("zict.Func(self._dump, self._load, self._file)", "zict.Func(self._dump, self._load, zict.File(directory))") and file_stores == ["zict.File(directory)"]
     ctx.ob("C43.D1-write-through", cname(init, None, "Func(dump, load, File(directory)); loaded on construction"), ok, "" if ok else "construction changed (dump / load swapped or directory ignored)", nontrivial=True, where=where(init, init.node))
     seq = [A.norm(s) for s in init.node.body]
     mk = [i for i, x in enumerate(seq) if x.startswith("self._func = ")]
